@@ -102,23 +102,71 @@ func genFaultRead(r *rand.Rand, i int) Scenario {
 	cfg.MaxDocs = 5
 	sc := Scenario{Name: fmt.Sprintf("fault_read-%d", i), NormKind: "code", Universe: universeOf(&cfg)}
 	seq := 0
+	cfg.MinDocs, cfg.MaxDocs = 4, 8
 	b1 := genBatch(r, &cfg, &seq)
+	// one term that every document has: its postings list spans several chunks under modes 1..3
+	for d := range b1 {
+		occ := TermOcc{Term: B([]byte("common")), Freq: 1 + d%2, Locs: []Loc{}}
+		if d%2 == 0 {
+			occ.Locs = append(occ.Locs, Loc{Field: "", Pos: 1, Start: 0, End: 6})
+		}
+		b1[d] = append(b1[d], FieldInst{Name: "body", Len: occ.Freq, Value: Bytes{}, Terms: []TermOcc{occ}})
+	}
+	sc.Universe = append(sc.Universe, "body")
 	sc.Batches = []Batch{b1}
 	sc.Ops = append(sc.Ops, Op{Op: "watchdog", Watchdog: 1500},
-		Op{Op: "build", Seg: 1, Batch: 0, Mode: pickMode(r)})
+		Op{Op: "build", Seg: 1, Batch: 0, Mode: []uint32{1, 1, 2, 3, 0}[r.Intn(5)]})
 	seg := 2
 	if r.Intn(3) == 0 {
-		sc.Ops = append(sc.Ops, Op{Op: "merge", File: 1, In: []int{1}, Drops: []DropSpec{{Kind: "nil"}}, Mode: 0, Buf: 64})
+		sc.Ops = append(sc.Ops, Op{Op: "merge", File: 1, In: []int{1}, Drops: []DropSpec{{Kind: "nil"}}, Mode: []uint32{1, 2, 0}[r.Intn(3)], Buf: 64})
 	} else {
 		sc.Ops = append(sc.Ops, Op{Op: "persist", Seg: 1, File: 1})
 	}
 	sc.Ops = append(sc.Ops, Op{Op: "load", File: 1, Seg: seg, Backing: "file"})
 	before := r.Intn(6)
 	sc.Ops = append(sc.Ops, readOps(r, &sc, seg, len(b1), before, &cfg, 100)...)
+	// iterators and readers opened while the storage is healthy are used again after it failed
+	var vocab []Pair
+	for f, ts := range b1.Terms() {
+		for t := range ts {
+			vocab = append(vocab, Pair{f, B([]byte(t))})
+		}
+	}
+	sort.Slice(vocab, func(i, j int) bool {
+		if vocab[i].Field != vocab[j].Field {
+			return vocab[i].Field < vocab[j].Field
+		}
+		return string(vocab[i].Term.Raw()) < string(vocab[j].Term.Raw())
+	})
+	npers := 0
+	for k := 0; k < 3 && len(vocab) > 0; k++ {
+		v := vocab[r.Intn(len(vocab))]
+		if k == 0 {
+			v = Pair{"body", B([]byte("common"))}
+		}
+		sc.Ops = append(sc.Ops, Op{Op: "pl_open", Seg: seg, Field: v.Field, Term: v.Term, Pl: 700 + k},
+			Op{Op: "it_open", Pl: 700 + k, It: 720 + k, Freq: true, Norm: true, Locs: r.Intn(2) == 0})
+		for j := 0; j < r.Intn(3); j++ {
+			sc.Ops = append(sc.Ops, Op{Op: "it_next", It: 720 + k})
+		}
+		npers++
+	}
+	sc.Ops = append(sc.Ops, Op{Op: "dv_open", Seg: seg, R: 740, Fields: universeOf(&cfg)})
+	if len(b1) > 0 {
+		sc.Ops = append(sc.Ops, Op{Op: "dv_visit", R: 740, N: 0})
+	}
 	if r.Intn(3) == 0 {
 		sc.Ops = append(sc.Ops, Op{Op: "arm_gate_close", Seg: seg})
 	} else {
 		sc.Ops = append(sc.Ops, Op{Op: "close_file", Seg: seg})
+	}
+	for k := 0; k < npers; k++ {
+		for j := 0; j < len(b1)+1; j++ {
+			sc.Ops = append(sc.Ops, Op{Op: "it_next", It: 720 + k})
+		}
+	}
+	for d := 0; d < len(b1); d++ {
+		sc.Ops = append(sc.Ops, Op{Op: "dv_visit", R: 740, N: d})
 	}
 	sc.Ops = append(sc.Ops, readOps(r, &sc, seg, len(b1), 8+r.Intn(6), &cfg, 300)...)
 	// every field's dictionary twice in a row: the second call must return promptly
